@@ -18,7 +18,12 @@ REQUIRED = ['C09.wrap_range', 'C09.wrap_periodic', 'C09.wrap_spec', 'C09.ft_shap
 TRUSTED = [
     'PARTIAL: sinusoid recovery accuracy (frequency, amplitude, phase within tolerance) is a statement about the FFT '
     'Hilbert transform, spline/pchip envelopes and the 5-point median filter; it is decided by the instance check only '
-    '(stream sinusoid_recovery, tolerance table calibrated on the clean tree, x3 margin), not by a theorem',
+    '(stream sinusoid_recovery: mean / median / max errors on the interior 80 % against props/_phase_table.py - worst errors of '
+    '40,000 random records + phase sweeps at resonant samples-per-cycle values on the clean tree, x3 margin), not by a theorem. '
+    'Pointwise quad errors are large by construction of the method (max 0.29-0.48 relative frequency error, median jumps at '
+    'resonant sampling), so for quad only mean frequency / mean phase / amplitude are tight; see _phase.CHECKED',
+    'integer-typed records: the recovery tolerance is applied when the float64 copy of the same integer-valued samples meets it '
+    '(flat-topped rounded peaks are an extrema-detection matter, C05); bit-identity with the float64 copy is always required',
     'PARTIAL: phase in [0, 2pi) is proved in exact arithmetic (C09.wrap_range); in float64 x % 2pi returns exactly 2pi for a '
     'tiny negative x (|x| < ulp) - the instance check tolerates exactly that value and counts it (tag phase-equals-2pi)',
     'scipy.signal.hilbert, np.angle, np.abs, np.unwrap + scipy.signal.medfilt, the upper-envelope interpolation and the '
@@ -878,6 +883,11 @@ def sine_case(rng, method, int_typed=False):
         if int_typed:
             fmin = max(fmin, sr / 48)     # keep the rounded peaks distinguishable (no long flat tops)
         f = math.exp(rng.uniform(math.log(fmin), math.log(fmax)))
+        if rng.random() < 0.12:           # resonant sampling: samples per cycle snapped to j/q, q in {1,2,3,4}
+            q = rng.choice([1, 1, 2, 3, 4])
+            spc = max(12.0, round(sr / f * q) / q)
+            if sr / spc >= fmin:
+                f = sr / spc
         cols.append({'kind': 'sine', 'f': f, 'a': 10 ** rng.uniform(-1.5, 1.5), 'ph': rng.uniform(0, 2 * np.pi)})
     spec = {'n': n, 'sr': sr, 'cols': cols}
     if int_typed:       # integer-typed record of a large-amplitude sinusoid (quantisation error <= 0.5 / a)
@@ -915,7 +925,15 @@ class Sinusoid(Stream):
         stats = []
         for j, c in enumerate(case['spec']['cols']):
             stats.append(P.recovery_stats(ip[:, j], iff[:, j], ia[:, j], c['f'], c['a'], c['ph'], sr))
-        return {'shapes': [list(ip.shape), list(iff.shape), list(ia.shape)], 'stats': stats}
+        out = {'shapes': [list(ip.shape), list(iff.shape), list(ia.shape)], 'stats': stats}
+        if case['spec'].get('dtype') == 'int':
+            # the same integer-valued samples as float64: integer typing must not change anything
+            ipf, iff_f, iaf = emd.spectra.frequency_transform(P.synth(case['spec']), sr, case['method'])
+            out['same_as_float'] = bool(np.array_equal(ipf, ip, equal_nan=True) and np.array_equal(iff_f, iff, equal_nan=True)
+                                        and np.array_equal(iaf, ia, equal_nan=True))
+            out['stats_float'] = [P.recovery_stats(ipf[:, j], iff_f[:, j], iaf[:, j], c['f'], c['a'], c['ph'], sr)
+                                  for j, c in enumerate(case['spec']['cols'])]
+        return out
 
     def holds(self, case, out):
         if _err(out):
@@ -927,18 +945,24 @@ class Sinusoid(Stream):
             if sh != [n, len(spec['cols'])]:
                 fs['shape-mismatch'] = Failure('shape-mismatch', '%s for input [%d, %d]' % (sh, n, len(spec['cols'])))
         names = {'F': 'frequency', 'A': 'amplitude', 'P': 'phase'}
+        is_int = spec.get('dtype') == 'int'
+        if is_int and not out['same_as_float']:
+            fs['int-dtype-changes-result'] = Failure('int-dtype-changes-result', 'integer-typed samples give different phase / frequency / '
+                                                     'amplitude than the float64 copy of the same values (method %s)' % m)
         for j, (c, st) in enumerate(zip(spec['cols'], out['stats'])):
             cycles, spc = n * c['f'] / sr, sr / c['f']
-            for stat in P.STATS:
+            for stat in P.CHECKED[m]:
                 tol = P.tolerance(m, cycles, spc, stat)
-                if spec.get('dtype') == 'int':
+                if is_int:
                     tol += 20.0 / c['a']          # quantisation to integers (a >= 1000: at most 0.02)
                 v = st[stat]
+                if is_int and not (out['stats_float'][j][stat] <= tol):
+                    continue                      # rounding artefact of the samples themselves (flat-topped peaks), not of the typing
                 if not (v <= tol):
                     kind = '%s-not-recovered:%s' % (names[stat[-1]], m)
-                    fs.setdefault(kind, Failure(kind, 'column %d (f=%.6g Hz, a=%.4g, ph=%.4g; %.1f cycles, %.1f samples/cycle, sr=%g): %s error %s = %.4g > tolerance %.4g'
+                    fs.setdefault(kind, Failure(kind, 'column %d (f=%.6g Hz, a=%.4g, ph=%.4g; %.1f cycles, %.2f samples/cycle, sr=%g): %s error %s = %.4g > tolerance %.4g'
                                                 % (j, c['f'], c['a'], c['ph'], cycles, spc, sr, names[stat[-1]],
-                                                   'max' if stat.startswith('max') else 'median', v, tol)))
+                                                   {'max': 'max', 'med': 'median', 'mea': 'of the mean'}[stat[:3]], v, tol)))
         return list(fs.values())
 
     def tags(self, case, out):
@@ -1332,7 +1356,7 @@ STREAMS = [Wrap(), Conversions(), Roundtrip(), ComplexPhase(), FreqTransform(), 
 
 # =============================================================================== calibration of the recovery table
 
-def calibrate(seeds=range(1, 9), per_seed=5000):
+def calibrate(seeds=range(1, 9), per_seed=5000, resonant=True):
     """Measure the worst recovery errors on the tree under EMD_REPO and print harness/props/_phase_table.py."""
     import random
     import emd
@@ -1352,6 +1376,24 @@ def calibrate(seeds=range(1, 9), per_seed=5000):
                 count[m][key] = count[m].get(key, 0) + 1
                 for s in P.STATS:
                     cell[s] = max(cell[s], st[s])
+    if resonant:
+        sr = 500.0
+        spcs = sorted(set(j / q for q in (1, 2, 3, 4) for j in range(12 * q, 40 * q + 1)) | set(range(40, 121, 4)))
+        for n in (512, 1000, 2048, 4096):
+            for spc in spcs:
+                f = sr / spc
+                if n * f / sr < 4:
+                    continue
+                for ph in np.linspace(0, 2 * np.pi, 16, endpoint=False) + 0.01:
+                    x = P.synth({'n': n, 'sr': sr, 'cols': [{'kind': 'sine', 'f': f, 'a': 1.0, 'ph': float(ph)}]})
+                    for m in P.METHODS:
+                        ip, iff, ia = emd.spectra.frequency_transform(x, sr, m)
+                        st = P.recovery_stats(ip[:, 0], iff[:, 0], ia[:, 0], f, 1.0, float(ph), sr)
+                        key = (P.band(n * f / sr, P.CYC_BANDS), P.band(sr / f, P.SPC_BANDS))
+                        cell = worst[m].setdefault(key, {s: 0.0 for s in P.STATS})
+                        count[m][key] = count[m].get(key, 0) + 1
+                        for s in P.STATS:
+                            cell[s] = max(cell[s], st[s])
     lines = ['"""Worst sinusoid-recovery errors measured on the clean tree (generated by `c09.calibrate`; do not edit by hand).',
              'key: (cycles-per-record band, samples-per-cycle band) -> worst error per statistic; counts in the comment."""', 'WORST = {']
     for m in P.METHODS:
